@@ -50,7 +50,6 @@ PairOk(r) ==
   \* counts mirror when both succeed (a proxy that ends the streams early is an adversarial peer: a clean
   \* end-of-stream between frames is indistinguishable from regular termination)
   /\ (r.resA = "ok" /\ r.resB = "ok" /\ r.what \notin {"cut", "halfcut"}) => (r.sentA = r.recvB /\ r.sentB = r.recvA)
-  /\ (r.resA = "ok" /\ r.resB = "ok" /\ r.what = "") => r.same
   /\ r.accept # "Allow" => /\ ~r.changedB
                            /\ r.resB \in {"abort", "err"}
                            /\ r.what = "" => (r.resB = "abort" /\ r.resA = "abort")
@@ -75,7 +74,6 @@ NetOk(r) ==
      ELSE /\ r.resA = "ok" /\ r.resB = "ok"
           /\ r.okA.ns /\ r.okA.peer /\ r.infoB.ns /\ r.infoB.peer
           /\ r.okA.sent = r.infoB.recv /\ r.okA.recv = r.infoB.sent
-          /\ r.same
 
 Step ==
   /\ l <= Len(Rec)
